@@ -409,6 +409,11 @@ func ruleSender() *Rule {
 				iBW = len(atoms)
 				atoms = append(atoms, CmpAtom("bytesWritten?offset", bytesW, offsetS))
 			}
+			iReqT := -1
+			if reqPrev != "" {
+				iReqT = len(atoms)
+				atoms = append(atoms, CmpAtom("curTerm?reqTerm", "r.currentTerm", strings.TrimSuffix(reqPrev, ".PrevLogIndex")+".Term"))
+			}
 			gBase := len(atoms)
 			for _, g := range getArgs {
 				atoms = append(atoms, CmpAtom("idx("+g+")?lastInclIdx", g, "r.lastIncludedIndex"), CmpAtom("idx("+g+")?nextIndex", g, "r.log.NextIndex()"))
@@ -455,8 +460,8 @@ func ruleSender() *Rule {
 				switch {
 				case fn == "(*Raft).sendAppendEntries" && field == "matchIndex":
 					obs := evalObs(a, id, []*Observation{o}, func(_ *Observation, pt int) bool {
-						return sp.Val(pt, 0) == L && sp.Val(pt, 1) == 1 && iSucc >= 0 && sp.Val(pt, iSucc) == 1
-					}, nil, "matchIndex advances only on a successful reply to a member, on a still-leader")
+						return sp.Val(pt, 0) == L && sp.Val(pt, 1) == 1 && iSucc >= 0 && sp.Val(pt, iSucc) == 1 && iReqT >= 0 && sp.Val(pt, iReqT) == EQ
+					}, nil, "matchIndex advances only on a successful reply to a request of the current term, from a member, on a still-leader")
 					obs[0].Construct = "MATCH-PROV " + o.Key
 					want1 := "(" + entriesLen + " + " + reqPrev + ")"
 					want2 := "(" + reqPrev + " + " + entriesLen + ")"
